@@ -10,6 +10,15 @@ use serde_json::json;
 
 pub struct C11;
 
+// limits (per mille of swept programs) for the rate-monitored classes in width sweeps; calibrated on
+// the unchanged tree, see DESIGN.md
+// (observed per 10 000 programs at seeds 1 and 2: choice 31/26, worse 0/1, more lines 6/6, overflow 3/3;
+// the limits are per 10 000 programs)
+const SWEEP_LIMIT_CHOICE: u64 = 150;
+const SWEEP_LIMIT_WORSE: u64 = 5;
+const SWEEP_LIMIT_MORE_LINES: u64 = 30;
+const SWEEP_LIMIT_OVERFLOW: u64 = 20;
+
 /// widest line, ignoring lines that start inside a multi-line token (their text is not laid
 /// out by the wrapper); width is measured the way the wrapper measures it: UTF-8 bytes, a tab counts as one
 fn max_width(out: &str) -> usize {
@@ -41,6 +50,111 @@ fn max_width(out: &str) -> usize {
     maxw
 }
 
+struct AtWidth {
+    w: u32,
+    text: String,
+    max: u32,
+    lines: usize,
+    fallback: bool,
+    reflow_cache: bool,
+}
+
+/// One tiny program formatted at *every* width from 8 to just beyond its widest line; all pairs
+/// W1 < W2 are judged. Findings are recorded once per class and program, and the rate-monitored
+/// classes are counted per program (the pairs of one program are not independent).
+fn width_sweep(rng: &mut Rng, out: &mut CaseOut) {
+    let deco = if rng.bool() { crate::gen::layout::DecoOpts::none() } else { crate::gen::layout::DecoOpts::light() };
+    // every statement kind equally often (the selector ranges of gram.rs: assignment, call, exit, raise,
+    // inherited, inline var/const, if, for-to, for-in, while, with, repeat, try, case, nested begin)
+    let selector = *rng.pick(&[5u32, 25, 36, 39, 41, 43, 50, 62, 67, 72, 76, 80, 85, 90, 91, 92, 93, 97]);
+    let mut opts = common::gram_opts(rng, 5);
+    opts.force_first_stmt = Some(selector);
+    let prog = crate::gen::gram::generate(rng, opts);
+    let lay = crate::gen::layout::Layout::build(&prog, rng, &deco, false, "  ");
+    let w = common::WellFormed { text: lay.render(), name: "gram".into(), prog: None, layout: None, seed_width: None };
+    let text = &w.text;
+    let base = Cfg::sample_sane(rng);
+    let wide = Cfg { wrap_column: 400, ..base.clone() };
+    let Some((fw, _)) = common::run(out, &wide, text) else { return };
+    let top = (max_width(&fw) as u32 + 1).min(110);
+    if top < 12 {
+        return;
+    }
+    let mut res: Vec<AtWidth> = vec![];
+    for wc in 8..=top {
+        let c = Cfg { wrap_column: wc, ..base.clone() };
+        let Some((f, ob)) = common::run(out, &c, text) else { return };
+        res.push(AtWidth { w: wc, max: max_width(&f) as u32, lines: oracle::line_count(&f), fallback: ob.has_fallback(), reflow_cache: ob.reflow_cache_hit(), text: f });
+    }
+    out.count("sweep.programs");
+    out.add("sweep.widths_formatted", res.len() as u64);
+    let cond_comment = super::wf::comment_after_conditional_directive(text);
+    let colon_comment = super::wf::colon_comment_paren(text);
+    let mut seen: std::collections::BTreeSet<&'static str> = Default::default();
+    let mut report = |out: &mut CaseOut, class: &'static str, detail: String, cfg: &Cfg| {
+        if seen.insert(class) {
+            out.count(&format!("sweep.programs_with.{class}"));
+            out.violate("C11", class, format!("width sweep [{}] {detail}", cfg.short()), text, Some(cfg));
+        }
+    };
+    for i in 0..res.len() {
+        for j in i + 1..res.len() {
+            let (a, b) = (&res[i], &res[j]);
+            out.count("sweep.pairs");
+            let fallback = a.fallback || b.fallback;
+            let c1 = Cfg { wrap_column: a.w, ..base.clone() };
+            // (a)
+            if b.max <= a.w && a.text != b.text {
+                let class = if fallback {
+                    "wrap-fallback"
+                } else if cond_comment {
+                    "comment-after-conditional-directive"
+                } else if (a.reflow_cache || b.reflow_cache) && text.contains("'''") {
+                    "reflow-child-cache"
+                } else if a.max <= a.w && a.lines == b.lines {
+                    "search-choice-depends-on-width"
+                } else {
+                    "search-misses-better-layout"
+                };
+                report(out, class, format!("result at wrap_column {} has widest line {} <= {}, but the result at {} differs", b.w, b.max, a.w, a.w), &c1);
+            }
+            // (b)
+            if b.lines > a.lines {
+                let class = if fallback {
+                    "wrap-fallback"
+                } else if a.max > a.w {
+                    "unfittable-narrow"
+                } else {
+                    let b1 = super::wf::line_start_ordinals(&a.text);
+                    let b2 = super::wf::line_start_ordinals(&b.text);
+                    let headers = super::wf::line_type_nb_ranges(text, &[pasfmt_core::prelude::LogicalLineType::RoutineHeader]);
+                    if b1.symmetric_difference(&b2).all(|o| headers.iter().any(|(x, y)| o >= x && o < y)) {
+                        "routine-header-prefers-parameter-breaks"
+                    } else if b.max <= b.w {
+                        "break-kind-priority"
+                    } else {
+                        // narrower fits, wider overflows: the same pair is a clause (c) finding
+                        "search-misses-fitting-layout"
+                    }
+                };
+                report(out, class, format!("{} lines at wrap_column {} but {} lines at {} (widest line at {}: {})", a.lines, a.w, b.lines, b.w, a.w, a.max), &c1);
+            }
+            // (c)
+            if a.max <= a.w && b.max > b.w {
+                let class = if fallback {
+                    "wrap-fallback"
+                } else if colon_comment {
+                    "variant-arm-comment-after-colon"
+                } else {
+                    "search-misses-fitting-layout"
+                };
+                report(out, class, format!("every line fits at wrap_column {} (widest {}) but not at {} (widest {})", a.w, a.max, b.w, b.max), &c1);
+            }
+        }
+    }
+    out.nontrivial.push(rng::hash_combine(rng::hash_str(text), rng::hash_str(&base.short())));
+}
+
 impl Prop for C11 {
     fn id(&self) -> &'static str {
         "C11"
@@ -59,6 +173,27 @@ impl Prop for C11 {
                     property: "C11".into(),
                     class: class.into(),
                     detail: format!("{k} of {all_pairs} width pairs show the known finding counted as `{key}` (calibrated rate on the unchanged tree: {calibrated}, limit {per_mille} per mille)"),
+                    input: String::new(),
+                    cfg: None,
+                    extra: serde_json::Value::Null,
+                    case_index: 0,
+                });
+            }
+        }
+        // width sweeps: rates per program (the pairs of one program are not independent)
+        let progs = counters.get("sweep.programs").copied().unwrap_or(0);
+        for (class, rate_class, per_mille) in [
+            ("search-choice-depends-on-width", "sweep-fits-but-differs-rate", SWEEP_LIMIT_CHOICE),
+            ("search-misses-better-layout", "sweep-worse-narrower-layout-rate", SWEEP_LIMIT_WORSE),
+            ("break-kind-priority", "sweep-more-lines-rate", SWEEP_LIMIT_MORE_LINES),
+            ("search-misses-fitting-layout", "sweep-overflow-rate", SWEEP_LIMIT_OVERFLOW),
+        ] {
+            let k = counters.get(&format!("sweep.programs_with.{class}")).copied().unwrap_or(0);
+            if progs >= 2000 && k * 10_000 > progs * per_mille {
+                v.push(crate::prop::Violation {
+                    property: "C11".into(),
+                    class: rate_class.into(),
+                    detail: format!("{k} of {progs} tiny programs formatted at every width show the known finding {class} for some pair of widths (limit {per_mille} per 10 000 programs)"),
                     input: String::new(),
                     cfg: None,
                     extra: serde_json::Value::Null,
@@ -106,6 +241,9 @@ impl Prop for C11 {
     fn run_case(&self, ctx: &Ctx, idx: u64) -> CaseOut {
         let mut out = CaseOut::default();
         let mut rng = Rng::derive(ctx.seed, "C11", idx);
+        if idx % 2 == 1 {
+            width_sweep(&mut rng, &mut out);
+        }
         for k in 0..8 {
             // small programs: the widest line is then often the interesting one
             let size = *rng.pick(&[1usize, 2, 3, 3, 6, 6, 25]);
@@ -193,7 +331,9 @@ impl Prop for C11 {
                             out.count("more_lines_both_fit");
                             "break-kind-priority"
                         } else {
-                            "more-lines-when-wider"
+                            // the narrower result fits but the wider one overflows (and has more lines):
+                            // the same pair is a clause (c) finding, counted and rate-monitored there
+                            "search-misses-fitting-layout"
                         }
                     };
                     out.violate("C11", class, format!("{} [{}] {n1} lines at wrap_column {w1} but {n2} lines at {w2} (widest line at {w1}: {max1})", w.name, base.short()), &w.text, Some(&c1));
